@@ -5,57 +5,59 @@
     Ghost state [g] records what the peer actually DELIVERED since the last (re)start: the
     transport parameters in force, every connection limit ([g_md]), every MAX_STREAM_DATA
     (id, value) ([g_msd]) and every stream-count limit ([g_ms]); [lmax]/[kmax] take the maximum.
-    [grun_core i (start side mrb sw p0)] runs ANY list [i] of integer-encoded operations
-    through the very interpreter ([FlowSend.apply]) that is compared with the implementation. *)
+    [grun i (start side mrb sw p0)] runs ANY list [i] of integer-encoded operations — every
+    operation of [FlowSend.apply] — through the very interpreter that is compared with the
+    implementation; operations that violate the calling discipline of [Connection] ([adm]) are
+    skipped. *)
 From QV Require Import Lib.Tac Lib.Corr Model.FlowSend Proofs.FlowSendProofs gen.Constants.
 Open Scope Z_scope.
 
 (** On every stream the offset written (an upper bound of the highest offset sent) never exceeds
     the stream's limit, and the limit never exceeds the largest value delivered in transport
     parameters or MAX_STREAM_DATA frames. *)
-Theorem C05_stream_offset_within_limit_partial : forall sd mrb sw p0 i s g,
+Theorem C05_stream_offset_within_limit : forall sd mrb sw p0 i s g,
   0 <= sd <= 1 -> params_valid p0 = true ->
-  grun_core i (start sd mrb sw p0) = (s, g) ->
+  grun i (start sd mrb sw p0) = (s, g) ->
   forall id x, lookup id s.(send) = Some (Some x) ->
     0 <= x.(s_offset) <= x.(s_max_data)
     /\ x.(s_max_data) <= delivered_stream_limit g s.(side) id.
 Proof.
   intros sd mrb sw p0 i s g Hs Hv R id x L.
-  exact (i_str _ _ (core_reachable_inv sd mrb sw p0 i s g Hs Hv R) id x L).
+  exact (i_str _ _ (reachable_inv sd mrb sw p0 i s g Hs Hv R) id x L).
 Qed.
-Print Assumptions C05_stream_offset_within_limit_partial.
+Print Assumptions C05_stream_offset_within_limit.
 
 (** [data_sent] is the sum of the offsets of all streams (live ones plus the final offsets of the
     removed ones) and never exceeds [max_data], which is exactly the largest connection limit
     delivered. *)
-Theorem C05_conn_offset_within_limit_partial : forall sd mrb sw p0 i s g,
+Theorem C05_conn_offset_within_limit : forall sd mrb sw p0 i s g,
   0 <= sd <= 1 -> params_valid p0 = true ->
-  grun_core i (start sd mrb sw p0) = (s, g) ->
+  grun i (start sd mrb sw p0) = (s, g) ->
   s.(data_sent) = sum_off s.(send) + g.(g_closed)
   /\ 0 <= s.(data_sent) <= s.(max_data)
   /\ s.(max_data) = lmax g.(g_md).
 Proof.
   intros sd mrb sw p0 i s g Hs Hv R.
-  pose proof (core_reachable_inv sd mrb sw p0 i s g Hs Hv R) as I.
+  pose proof (reachable_inv sd mrb sw p0 i s g Hs Hv R) as I.
   exact (conj (i_sum _ _ I) (conj (i_ds _ _ I) (i_md _ _ I))).
 Qed.
-Print Assumptions C05_conn_offset_within_limit_partial.
+Print Assumptions C05_conn_offset_within_limit.
 
 (** Streams opened never exceed the stream-count limit, which is exactly the largest count
     delivered; [open] answers [None] exactly when they are equal. *)
-Theorem C05_stream_count_within_limit_partial : forall sd mrb sw p0 i s g d,
+Theorem C05_stream_count_within_limit : forall sd mrb sw p0 i s g d,
   0 <= sd <= 1 -> params_valid p0 = true ->
-  grun_core i (start sd mrb sw p0) = (s, g) ->
+  grun i (start sd mrb sw p0) = (s, g) ->
   0 <= get_next (norm_dir d) s <= get_max (norm_dir d) s
   /\ get_max (norm_dir d) s = kmax (norm_dir d) g.(g_ms)
   /\ ((exists s', do_open d s = Some (s', [1])) <-> get_next (norm_dir d) s = get_max (norm_dir d) s).
 Proof.
   intros sd mrb sw p0 i s g d Hs Hv R.
-  pose proof (core_reachable_inv sd mrb sw p0 i s g Hs Hv R) as I.
+  pose proof (reachable_inv sd mrb sw p0 i s g Hs Hv R) as I.
   destruct (i_cnt _ _ I (norm_dir d) (norm_dir_range d)) as (A & B).
   split; [exact A|]. split; [exact B|]. apply open_none_iff. lia.
 Qed.
-Print Assumptions C05_stream_count_within_limit_partial.
+Print Assumptions C05_stream_count_within_limit.
 
 (** The exact formula of [write]: it accepts [min n available] where
     [available = min (max_data - data_sent) (send_window -. unacked_data) (stream limit - offset)]
@@ -63,7 +65,7 @@ Print Assumptions C05_stream_count_within_limit_partial.
     [write_limit] never fails there), for every writable stream. *)
 Theorem C05_write_accepts_at_most_credit : forall sd mrb sw p0 i s g id x n,
   0 <= sd <= 1 -> params_valid p0 = true ->
-  grun_core i (start sd mrb sw p0) = (s, g) ->
+  grun i (start sd mrb sw p0) = (s, g) ->
   lookup id s.(send) = Some (Some x) -> x.(s_state) = 0 -> x.(s_stop) = None -> 0 <= n ->
   let available := Z.min (Z.min (s.(max_data) - s.(data_sent))
                                 (Z.max 0 (s.(send_window) - s.(unacked_data))))
@@ -71,7 +73,7 @@ Theorem C05_write_accepts_at_most_credit : forall sd mrb sw p0 i s g id x n,
   exists s', do_write id n s = Some (s', if available =? 0 then [1] else [0; Z.min n available]).
 Proof.
   intros sd mrb sw p0 i s g id x n Hs Hv R L St Sp Hn.
-  pose proof (core_reachable_inv sd mrb sw p0 i s g Hs Hv R) as I.
+  pose proof (reachable_inv sd mrb sw p0 i s g Hs Hv R) as I.
   apply write_exact; auto.
   - apply (write_limit_some _ _ I).
   - destruct (i_str _ _ I id x L) as (A & _). lia.
@@ -111,8 +113,9 @@ Definition C05_full : Prop := forall sd mrb sw p0 i s g,
 
 (** Non-vacuity: a reachable state with a stream at its limit, a blocked write, then credit. *)
 Example C05_example :
-  let '(s, g) := grun_core [[3; 1; 100]; [3; 1; 100]; [6; 300]; [3; 1; 1]; [13; 120]; [19]]
-                           (start 0 2 150 (mkParams 200 1 1 120 50 50)) in
-  s.(data_sent) = 120 /\ s.(max_data) = 300 /\ lmax g.(g_md) = 300 /\ s.(unacked_data) = 120
-  /\ exists x, lookup 1 s.(send) = Some (Some x) /\ x.(s_offset) = 120 /\ x.(s_max_data) = 120.
+  let '(s, g) := grun [[2; 0]; [3; 0; 100]; [7; 0; 120]; [3; 0; 100]; [6; 300]; [9; 1200]; [10; 0]; [19]]
+                      (start 0 2 150 (mkParams 200 1 1 120 50 50)) in
+  s.(data_sent) = 120 /\ s.(max_data) = 300 /\ lmax g.(g_md) = 300 /\ s.(unacked_data) = 0
+  /\ kmax 0 g.(g_msd) = 120 /\ s.(next_bi) = 1
+  /\ exists x, lookup 0 s.(send) = Some (Some x) /\ x.(s_offset) = 120 /\ x.(s_max_data) = 120.
 Proof. vm_compute. repeat split. eexists. repeat split. Qed.
